@@ -4,6 +4,8 @@ use honeycomb_core::{
     stm::{Transaction, TransactionClosureResult, abort, try_or_coerce},
 };
 
+use crate::utils::VertexAnchor;
+
 /// Error-modeling enum for edge swap routine.
 #[derive(thiserror::Error, Debug, PartialEq, Eq)]
 pub enum EdgeSwapError {
@@ -93,6 +95,25 @@ pub fn swap_edge<T: CoordsFloat>(
     try_or_coerce!(map.unsew::<1>(t, b0r), EdgeSwapError);
     try_or_coerce!(map.unsew::<1>(t, b1l), EdgeSwapError);
     try_or_coerce!(map.unsew::<1>(t, b1r), EdgeSwapError);
+
+    // `l` and `r` are now vertices of their own, each holding a copy of the data of its former
+    // end point, which the sews below would merge into the new end points. Hand them the data
+    // of the vertices they are about to join instead, so that these merges are neutral.
+    for (d, new_vertex_dart) in [(l, b0l), (r, b0r)] {
+        let vid = map.vertex_id_transac(t, new_vertex_dart)?;
+        if let Some(v) = map.read_vertex(t, vid)? {
+            map.write_vertex(t, d, v)?;
+        } else {
+            map.remove_vertex(t, d)?;
+        }
+        if map.contains_attribute::<VertexAnchor>() {
+            if let Some(a) = map.read_attribute::<VertexAnchor>(t, vid)? {
+                map.write_attribute(t, d, a)?;
+            } else {
+                map.remove_attribute::<VertexAnchor>(t, d)?;
+            }
+        }
+    }
 
     try_or_coerce!(map.sew::<1>(t, l, b0r), EdgeSwapError);
     try_or_coerce!(map.sew::<1>(t, b0r, b1l), EdgeSwapError);
